@@ -1,13 +1,15 @@
 (* C19 — Client requests are sent one at a time and answered in FIFO order.
    Statements only; proofs are in Proofs/HttpClientProofs.v.
 
-   run mof qof pq pay (init_m https redirectable cmethod) evs : the client's bookkeeping (the
+   run mof qof pq pay (init_m reconn https redirectable cmethod) evs : the client's bookkeeping (the
    tag t has method mof t, explicit query arguments qof t (None: Client.request was called without
    qargs and took a copy of the requester's) and the query pq t written into its path; the Client was constructed with method cmethod) after an arbitrary
-   schedule evs of  Enq tag  (Client.request) and  Pass o  (one Client.service();
-   o = Some reply when a complete reply was consumed in that pass).  All theorems
+   schedule evs of  Enq tag  (Client.request) and  Pass rc o  (one Client.service();
+   rc = the reconnect timer of a reconnectable connector had expired at its start,
+   o = Some reply when a complete reply was consumed in that pass) and  Eof  (the connector read the
+   server's close).  All theorems
    quantify over every schedule and every server behaviour (immediate, delayed =
-   Pass None, redirecting, closing = rp_close). *)
+   Pass false None, redirecting, closing = rp_close). *)
 From Hio Require Import Base.Prelude Model.HttpClient Proofs.HttpClientProofs.
 Local Open Scope N_scope.
 
@@ -17,8 +19,8 @@ Local Open Scope N_scope.
    twice, same order, each carrying its originating request (origin = the tag in
    the entry's request, or in the first redirect of its history).  On the wire the
    original requests appear in queue order and at most one is unanswered. *)
-Theorem C19_fifo : forall mof qof pq pay https redirectable cmethod evs,
-  let s := run mof qof pq pay (init_m https redirectable cmethod) evs in
+Theorem C19_fifo : forall mof qof pq pay reconn https redirectable cmethod evs,
+  let s := run mof qof pq pay (init_m reconn https redirectable cmethod) evs in
   map Some (enqs evs) = map origin (responses s) ++ inflight s ++ map Some (queue s)
   /\ (length (inflight s) <= 1)%nat
   /\ (exists rest, enqs evs = wire_reqs (wire s) ++ rest)
@@ -58,8 +60,8 @@ Print Assumptions C19_entry_targets.
    is queued, sent or answered afterwards: it is the qargs its request dict got in Client.request
    (explicit ones, else a copy of the requester's at that moment - recorded in the append-only qlog)
    merged with the query of its own path; *)
-Theorem C19_wire_queries : forall mof qof pq pay https redirectable cmethod evs,
-  let s := run mof qof pq pay (init_m https redirectable cmethod) evs in
+Theorem C19_wire_queries : forall mof qof pq pay reconn https redirectable cmethod evs,
+  let s := run mof qof pq pay (init_m reconn https redirectable cmethod) evs in
   Forall (fun w => match w_item w with
                    | WReq t => w_q w = merge (qlookup (qlog s) t) (pq t)
                    | WRedir _ => True end) (wire s).
@@ -78,8 +80,8 @@ Print Assumptions C19_queued_target_fixed.
    payloads earlier requests carried; a redirect follow-up carries none; and while an un-redirected
    request is in flight the requester (hence the entry's request dict, C19_entry_targets) holds exactly
    that request's payload; *)
-Theorem C19_wire_payload : forall mof qof pq pay https redirectable cmethod evs,
-  let s := run mof qof pq pay (init_m https redirectable cmethod) evs in
+Theorem C19_wire_payload : forall mof qof pq pay reconn https redirectable cmethod evs,
+  let s := run mof qof pq pay (init_m reconn https redirectable cmethod) evs in
   Forall (fun w => match w_item w with
                    | WReq t => w_pay w = wire_pay mof pay t
                    | WRedir _ => w_pay w = nopay end) (wire s)
@@ -90,15 +92,15 @@ Print Assumptions C19_wire_payload.
 (* ... and in every reachable state every entry's history consists of redirect
    statuses only, only its first hop carries a request tag, and an entry with a
    history carries no tag itself (the originating request is in the history). *)
-Theorem C19_history_attached : forall mof qof pq pay https redirectable cmethod evs,
-  Forall good_entry (responses (run mof qof pq pay (init_m https redirectable cmethod) evs)).
+Theorem C19_history_attached : forall mof qof pq pay reconn https redirectable cmethod evs,
+  Forall good_entry (responses (run mof qof pq pay (init_m reconn https redirectable cmethod) evs)).
 Proof. exact history_attached. Qed.
 Print Assumptions C19_history_attached.
 
 (* https -> http is refused: an https client stays on https connectors whatever
    the servers answer, and everything it ever sent went over https; *)
-Theorem C19_https_never_downgraded : forall mof qof pq pay redirectable cmethod evs,
-  let s := run mof qof pq pay (init_m true redirectable cmethod) evs in
+Theorem C19_https_never_downgraded : forall mof qof pq pay reconn redirectable cmethod evs,
+  let s := run mof qof pq pay (init_m reconn true redirectable cmethod) evs in
   https s = true /\ Forall (fun w => w_https w = true) (wire s).
 Proof. exact https_kept. Qed.
 Print Assumptions C19_https_never_downgraded.
@@ -108,7 +110,7 @@ Print Assumptions C19_https_never_downgraded.
 Theorem C19_downgrade_refused : forall s r l h,
   https s = true -> redirectable s = true -> is_redirect (rp_status r) = true ->
   rp_loc r = Some l -> l_host l = Some h -> l_https l = false ->
-  complete s r = deliver s (rp_status r) true (cut s || rp_close r).
+  complete s r = deliver s (rp_status r) true (cut s).
 Proof. exact downgrade_refused. Qed.
 Print Assumptions C19_downgrade_refused.
 
@@ -117,28 +119,41 @@ Print Assumptions C19_downgrade_refused.
    that request, also across followed redirects, so the "HEAD reply has no body"
    rule is applied to HEAD replies and to no others and every reply the server
    sends for the request on the wire is consumed whole (readable). *)
-Theorem C19_method_tracks : forall mof qof pq pay https redirectable cmethod evs,
-  let s := run mof qof pq pay (init_m https redirectable cmethod) evs in
+Theorem C19_method_tracks : forall mof qof pq pay reconn https redirectable cmethod evs,
+  let s := run mof qof pq pay (init_m reconn https redirectable cmethod) evs in
   waited s = true ->
   rs_method s = rq_method s /\ (forall t, inflight s = [Some t] -> rq_method s = mof t).
 Proof. exact method_tracks. Qed.
 Print Assumptions C19_method_tracks.
 
-Theorem C19_reply_always_readable : forall mof qof pq pay https redirectable cmethod evs r,
-  let s := run mof qof pq pay (init_m https redirectable cmethod) evs in
+Theorem C19_reply_always_readable : forall mof qof pq pay reconn https redirectable cmethod evs r,
+  let s := run mof qof pq pay (init_m reconn https redirectable cmethod) evs in
   waited s = true -> readable s r = true.
 Proof. exact always_readable. Qed.
 Print Assumptions C19_reply_always_readable.
+
+(* Reconnect: on a reconnectable connector whose timer fired, a request that was popped while the
+   connection was cut off (it waits in connector.txbs) goes on the wire of the new connection, exactly
+   once and unchanged. *)
+Example C19_example_reconnect :
+  let evs := [Enq 1; Enq 2; Enq 3; Pass false None;
+              Eof; Pass false (Some {| rp_id := 0; rp_status := 200; rp_loc := None; rp_close := true |});
+              Pass false None; Pass false None; Pass true None;
+              Pass false (Some {| rp_id := 1; rp_status := 200; rp_loc := None; rp_close := false |});
+              Pass false None] in
+  let s := run (fun _ => 0) (fun _ => None) (fun _ => []) (fun _ => nopay) (init_m true false true 0) evs in
+  wire_reqs (wire s) = [1; 2; 3] /\ map w_conn (wire s) = [0; 1; 1] /\ length (responses s) = 2%nat.
+Proof. vm_compute. repeat split. Qed.
 
 (* Liveness is NOT part of what is proved and is false under a closing server
    (open finding C19-close-strands-queue): after a reply whose server closes the
    connection, the next request is popped but never reaches the wire and never
    gets an entry, however many passes follow. *)
 Theorem C19_all_answered_refuted :
-  exists evs, let s := run (fun _ => 0) (fun _ => None) (fun _ => []) (fun _ => nopay) (init_m false true 0) (evs ++ repeat (Pass None) 50) in
+  exists evs, let s := run (fun _ => 0) (fun _ => None) (fun _ => []) (fun _ => nopay) (init_m false false true 0) (evs ++ repeat (Pass true None) 50) in
     enqs evs = [1; 2] /\ length (responses s) = 1%nat /\ waited s = true /\ wire_reqs (wire s) = [1].
 Proof.
-  exists [Enq 1; Enq 2; Pass None; Pass (Some {| rp_id := 0; rp_status := 200; rp_loc := None; rp_close := true |})].
+  exists [Enq 1; Enq 2; Pass false None; Eof; Pass false (Some {| rp_id := 0; rp_status := 200; rp_loc := None; rp_close := true |})].
   vm_compute. repeat split.
 Qed.
 Print Assumptions C19_all_answered_refuted.
@@ -148,14 +163,14 @@ Print Assumptions C19_all_answered_refuted.
    is followed; the third gets a delayed plain answer. *)
 Example C19_example :
   let rel := {| l_host := None; l_https := false; l_query := [(1, 7)] |} in
-  let evs := [Enq 5; Enq 6; Enq 7; Pass None;
-              Pass (Some {| rp_id := 0; rp_status := 301; rp_loc := Some {| l_host := Some 1; l_https := false; l_query := [] |}; rp_close := false |});
-              Pass None;
-              Pass (Some {| rp_id := 1; rp_status := 307; rp_loc := Some rel; rp_close := false |});
-              Pass (Some {| rp_id := 2; rp_status := 200; rp_loc := None; rp_close := false |});
-              Pass None; Pass None;
-              Pass (Some {| rp_id := 3; rp_status := 404; rp_loc := None; rp_close := false |}); Pass None] in
-  let s := run (fun t => if t =? 6 then HEAD else 0) (fun t => if t =? 5 then Some [(0, 1)] else None) (fun t => if t =? 5 then [(1, 2)] else []) (fun t => (2, t)) (init_m false true 0) evs in
+  let evs := [Enq 5; Enq 6; Enq 7; Pass false None;
+              Pass false (Some {| rp_id := 0; rp_status := 301; rp_loc := Some {| l_host := Some 1; l_https := false; l_query := [] |}; rp_close := false |});
+              Pass false None;
+              Pass false (Some {| rp_id := 1; rp_status := 307; rp_loc := Some rel; rp_close := false |});
+              Pass false (Some {| rp_id := 2; rp_status := 200; rp_loc := None; rp_close := false |});
+              Pass false None; Pass false None;
+              Pass false (Some {| rp_id := 3; rp_status := 404; rp_loc := None; rp_close := false |}); Pass false None] in
+  let s := run (fun t => if t =? 6 then HEAD else 0) (fun t => if t =? 5 then Some [(0, 1)] else None) (fun t => if t =? 5 then [(1, 2)] else []) (fun t => (2, t)) (init_m false false true 0) evs in
   map origin (responses s) = [Some 5; Some 6] /\ inflight s = [Some 7] /\ queue s = [] /\
   map e_history (responses s) = [[(301, Some 5); (307, None)]; []] /\
   wire_reqs (wire s) = [5; 6; 7] /\ map w_conn (wire s) = [0; 1; 1; 1; 1] /\
@@ -164,10 +179,10 @@ Example C19_example :
 Proof. vm_compute. repeat split. Qed.
 
 Example C19_example_refused :
-  let evs := [Enq 1; Enq 2; Pass None;
-              Pass (Some {| rp_id := 0; rp_status := 302; rp_loc := Some {| l_host := Some 1; l_https := false; l_query := [] |}; rp_close := false |});
-              Pass None] in
-  let s := run (fun _ => 0) (fun _ => None) (fun _ => []) (fun _ => nopay) (init_m true true HEAD) evs in
+  let evs := [Enq 1; Enq 2; Pass false None;
+              Pass false (Some {| rp_id := 0; rp_status := 302; rp_loc := Some {| l_host := Some 1; l_https := false; l_query := [] |}; rp_close := false |});
+              Pass false None] in
+  let s := run (fun _ => 0) (fun _ => None) (fun _ => []) (fun _ => nopay) (init_m false true true HEAD) evs in
   map (fun e => (e_status e, e_errored e, e_tag e)) (responses s) = [(302, true, Some 1)] /\
   wire_reqs (wire s) = [1; 2] /\ map w_https (wire s) = [true; true].
 Proof. vm_compute. repeat split. Qed.
